@@ -238,7 +238,9 @@ func (fr *Frame) run(st0 *State, params []Val) (*State, []Val) {
 	for i, p := range fn.Params {
 		fr.env[p] = params[i]
 	}
-	fr.entry = st0.clone()
+	if fr.entry == nil { // the top-level frame's entry state is fixed by VerifyFunc (before its ghost statements)
+		fr.entry = st0.clone()
+	}
 	fr.order = rpo(fn)
 	fr.execBlockList(fr.order, fn.Blocks[0], st0.clone(), nil)
 	// panic edges: a panic raised below this frame runs the frame's deferred calls; if one of them recovers,
